@@ -695,8 +695,15 @@ def get_mypy_type(node: Node) -> Type | SymbolNode | None:
         case OpExpr(method_type=CallableType(ret_type=ty)):
             return ty
 
-        case IndexExpr(method_type=CallableType(ret_type=ty)):
-            return ty
+        case IndexExpr(base=base, method_type=CallableType(ret_type=ty)):
+            base_ty = get_mypy_type(base)
+
+            while isinstance(base_ty, TypeAliasType) and base_ty.alias:  # pragma: no cover
+                base_ty = base_ty.alias.target
+
+            # When indexing a union Mypy only keeps the method of the last union member
+            if isinstance(base_ty, Instance):
+                return ty
 
         case AwaitExpr(expr=expr):
             ty = get_mypy_type(expr)
